@@ -15,10 +15,11 @@ import (
 func init() {
 	register(&Prop{
 		ID: "C06", Level: "exploration", Quick: 100000, Thorough: 6000000,
-		Rule: "trial = (query alignment 1..6, target alignment 1..14 (10%: 15..40) with ties, duplicates, heavily ambiguous and all-N targets in any file position, measure raw/snp/tn93, plain closest or -n K (incl. K > targets) and/or -d D (at, just below, just above occurring distances), --table); 3 seeded schedules with -t in {1,2,3,4,8} and NumCPU in {1..16}; oracle = executable model of the total order (defined before undefined, distance, completeness desc, file position); non-trivial = >= 2 queries and >= 3 targets and (a tie on distance, or an undefined distance, or results arrived out of query order); distinct = distinct (inputs, options)",
-		Gen:   genC06,
-		Check: checkC06,
-		Required: []string{"tie_on_distance", "tie_on_distance_and_completeness", "undefined_distance_seen", "results_arrived_out_of_query_order", "catchment_replacement_at_capacity"},
+		Rule:          "trial = (query alignment 1..6, target alignment 1..14 (10%: 15..40) with ties, duplicates, heavily ambiguous and all-N targets in any file position, measure raw/snp/tn93, plain closest or -n K (incl. K > targets) and/or -d D (at, just below, just above occurring distances), --table); 3 seeded schedules with -t in {1,2,3,4,8} and NumCPU in {1..16}; oracle = executable model of the total order (defined before undefined, distance, completeness desc, file position); non-trivial = >= 2 queries and >= 3 targets and (a tie on distance, or an undefined distance, or results arrived out of query order); distinct = distinct (inputs, options)",
+		ShrinkColumns: true,
+		Gen:           genC06,
+		Check:         checkC06,
+		Required:      []string{"tie_on_distance", "tie_on_distance_and_completeness", "undefined_distance_seen", "results_arrived_out_of_query_order", "catchment_replacement_at_capacity"},
 	})
 }
 
@@ -106,13 +107,13 @@ func tn93Model(st pairStat, t string) float64 {
 }
 
 type cand struct {
-	name    string
-	pos     int
-	comp    int
-	defined bool
-	num, den int    // raw: n/d ; snp: n/1
-	d       float64 // value used for printing and for tn93 ordering
-	statKey string
+	name     string
+	pos      int
+	comp     int
+	defined  bool
+	num, den int     // raw: n/d ; snp: n/1
+	d        float64 // value used for printing and for tn93 ordering
+	statKey  string
 }
 
 func genC06(r *Rand, tier string, ord int) *Trial {
@@ -193,8 +194,6 @@ func genC06(r *Rand, tier string, ord int) *Trial {
 	}
 	c.Opts.Threads = 1
 	t.Case = c
-	t.Params["qnames"], t.Params["qseqs"] = strings.Join(q.Names, ","), strings.Join(q.Seqs, ",")
-	t.Params["tnames"], t.Params["tseqs"] = strings.Join(tg.Names, ","), strings.Join(tg.Seqs, ",")
 	t.Runs = genRunCfgs(r, 3)
 	return t
 }
@@ -207,8 +206,16 @@ func fmtDist(measure string, c cand) string {
 }
 
 func checkC06(t *Trial, ctx *Ctx) *Failure {
-	qn, qs := strings.Split(t.Params["qnames"], ","), strings.Split(t.Params["qseqs"], ",")
-	tn, ts := strings.Split(t.Params["tnames"], ","), strings.Split(t.Params["tseqs"], ",")
+	fa := func(text string) (names, seqs []string) {
+		recs, _ := parseFasta(text)
+		for _, rc := range recs {
+			names = append(names, strings.Fields(rc.head[1:])[0])
+			seqs = append(seqs, strings.Join(rc.seq, ""))
+		}
+		return
+	}
+	qn, qs := fa(t.Case.Files["query"])
+	tn, ts := fa(t.Case.Files["target"])
 	o := t.Case.Opts
 	measure := o.Measure
 	plain := t.Case.Cmd == "closest"
